@@ -20,6 +20,10 @@ CONSTANTS
   MaxNow = 0
   AllowClose = FALSE
   AllowCtx = TRUE
+  MaxCalls = 1
+  WFault = FALSE
+  TimeoutCarriesOver = FALSE
+  WriteErrKeepsEntry = FALSE
   MaxTry = 1
 INVARIANTS NoNilDelivery
 CHECK_DEADLOCK FALSE
